@@ -130,6 +130,7 @@ func ZZC19_bindings() {
 		lua.LString("ocidir:///new:v1"),
 		refUD[0], manUD[0], cfgUD[0], bhUD[0], bgUD[0],
 		lua.LString("/import.tar"),
+		lua.LString(zzLayout + "/index.json"), // a file name that happens to be a file of the layout
 		ls.NewTable(),
 		lua.LNil,
 	}
@@ -184,6 +185,8 @@ func ZZC19_bindings() {
 		switch k {
 		case 2:
 			zzAssert(touched == 0, "dry_run_blob_put_changes_nothing")
+		case 7:
+			zzAssert(touched == 0, "dry_run_image_export_changes_nothing")
 		case 8:
 			zzAssert(touched == 0, "dry_run_image_import_changes_nothing")
 		case 16:
